@@ -293,6 +293,32 @@ def _reverse_table(repo) -> Optional[Dict[str, str]]:
     return table
 
 
+def make_label_of(repo):
+    """Evaluator of the label expression of a recorded triple: constants, StackingTopology members, .name/.value, .reverse
+    (table of StackingTopology.reverse evaluated on every member), StackingTopology[<label>], conditional expressions."""
+    rev = _reverse_table(repo)
+
+    def label(e, env) -> Optional[str]:
+        if isinstance(e, ast.Constant) and isinstance(e.value, str):
+            return e.value
+        if isinstance(e, ast.IfExp):
+            tv = bool_eval(e.test, env)
+            return None if tv is None else label(e.body if tv else e.orelse, env)
+        if _member(e) is not None:
+            return _member(e)
+        if isinstance(e, ast.Attribute) and e.attr in ("name", "value"):
+            return label(e.value, env)
+        if isinstance(e, ast.Attribute) and e.attr == "reverse":
+            inner = label(e.value, env)
+            return rev.get(inner) if (rev is not None and inner is not None) else None
+        m = astq.match(e, "StackingTopology[X_]")
+        if m:
+            return label(m["X_"], env)
+        return None
+
+    return label
+
+
 def _labels(chk, fi, loop) -> None:
     """The recorded triple in the four cases (which residue is lower) x (normals same way): evaluated along the one feasible path."""
     from sa import paths as P
@@ -418,27 +444,9 @@ def _labels(chk, fi, loop) -> None:
     )
 
 
-def run(chk) -> None:
+def _pair_loop_pinned(chk, fi, fm, inl, fold, loop, c) -> None:
+    """Pinned-form reading of find_stackings (fallback of checks/c04e.py)."""
     repo = chk.repo
-    c = spec("constants.json")["C04"]
-    chk.explanation = (
-        "Static rules on annotator.find_stackings: folded KD-tree radius; centroid = per-axis mean over the base atoms actually present (same list in numerator and "
-        "denominator); accept regions of the two angle tests evaluated cell by cell over both candidate angles (so min/max slips and unit slips show) against 35 and 45 "
-        "degrees; operands of every angle resolved by reaching definitions; closed-world classification of the skips; same_direction <=> dot(n_i,n_j) > 0; the label "
-        "and orientation of the appended triple enumerated over the four (order, direction) cases; emission through sorted()."
-    )
-    chk.trusted = ["CPython ast", "scipy KDTree.query_pairs yields each unordered pair once with i < j", "base normal and angle function are C03's obligations (re-checked there)"]
-    chk.assumptions = ["pairs within 1e-6 of a threshold are undecided", "float geometry is not decided", "which of upward/downward (inward/outward) applies for a given order is a convention; only the grouping is decided"]
-    chk.robust |= {"stack-radius", "centroid-mean", "centroid-axes", "centroid-atoms", "stack-normals", "stack-offset", "stack-labels", "stack-emission", "stack-topology-enum", "base-normal-eval"}
-    fi = repo.func(AN, "find_stackings")
-    chk.note_function(fi)
-    fm = FlowMap(fi.node)
-    inl = Inliner(fi.node)
-    fold = Folder(repo, AN).fold
-    loop = kd_loop(chk, fi)
-    r = fold_call_arg(chk, fi, loop.iter)
-    chk.expect(r == c["stacking_max_distance"], "stack-radius", fi.site(loop), f"centroid pairs come from query_pairs({r})", f"stacking search radius folds to {r}, the statement says {c['stacking_max_distance']} A", K(fi, "radius"), expected=c["stacking_max_distance"], found=r)
-
     # ---- centroids --------------------------------------------------------------------------
     rls = [l for l in fi.node.body if isinstance(l, ast.For) and astq.match(l.iter, "structure.residues") is not None]
     if len(rls) != 1:
@@ -533,19 +541,65 @@ def run(chk) -> None:
         ok = norm(e) in ("numpy.dot(normal_i, normal_j) > 0.0", "numpy.dot(normal_i, normal_j) > 0", "numpy.dot(normal_j, normal_i) > 0.0", "0.0 < numpy.dot(normal_i, normal_j)", "bool(numpy.dot(normal_i, normal_j) > 0.0)")
     chk.expect(ok, "stack-direction", fi.site(loop), "same_direction <=> dot(normal_i, normal_j) > 0", "same_direction is not `dot(normal_i, normal_j) > 0`", K(fi, "direction"), found=[norm(x) for x in sd])
     _labels(chk, fi, loop)
+
+
+def run(chk) -> None:
+    repo = chk.repo
+    c = spec("constants.json")["C04"]
+    chk.explanation = (
+        "Static rules on annotator.find_stackings: folded KD-tree radius; centroid = per-axis mean over the base atoms actually present (same list in numerator and "
+        "denominator); accept regions of the two angle tests evaluated cell by cell over both candidate angles (so min/max slips and unit slips show) against 35 and 45 "
+        "degrees; operands of every angle resolved by reaching definitions; closed-world classification of the skips; same_direction <=> dot(n_i,n_j) > 0; the label "
+        "and orientation of the appended triple enumerated over the four (order, direction) cases; emission through sorted()."
+    )
+    chk.trusted = ["CPython ast", "scipy KDTree.query_pairs yields each unordered pair once with i < j", "base normal and angle function are C03's obligations (re-checked there)"]
+    chk.assumptions = ["pairs within 1e-6 of a threshold are undecided", "float geometry is not decided", "which of upward/downward (inward/outward) applies for a given order is a convention; only the grouping is decided"]
+    chk.robust |= {"stack-radius", "centroid-mean", "centroid-axes", "centroid-atoms", "stack-normals", "stack-offset", "stack-labels", "stack-emission", "stack-topology-enum", "base-normal-eval"}
+    fi = repo.func(AN, "find_stackings")
+    chk.note_function(fi)
+    fm = FlowMap(fi.node)
+    inl = Inliner(fi.node)
+    fold = Folder(repo, AN).fold
+    loop = kd_loop(chk, fi)
+    r = fold_call_arg(chk, fi, loop.iter)
+    chk.expect(r == c["stacking_max_distance"], "stack-radius", fi.site(loop), f"centroid pairs come from query_pairs({r})", f"stacking search radius folds to {r}, the statement says {c['stacking_max_distance']} A", K(fi, "radius"), expected=c["stacking_max_distance"], found=r)
+
+    from checks import c03e, c04e
+
+    chk.robust |= {"stack-roles", "stack-skips", "stack-extra-filter", "stack-offset-vector", "stack-direction", "centroid-register", "model-filter", "same-residue-identity"}
+    store = "pairs"
+    try:
+        sites = c03e.build_sites(fi, loop)
+        if "residue" not in sites.maps.values():
+            raise c03e.NotReadable("no dictionary maps a centroid back to its residue")
+        raw = [l for l in fi.node.body if isinstance(l, ast.For) and l.lineno == sites.res_loop.lineno]
+        c03e.check_model_filter(chk, fi, sites.res_loop, sites.res_var, sites.res_paths)
+        _centroid(chk, fi, fm, inl, raw[0] if raw else sites.res_loop)
+        c04e.check_registration(chk, fi, sites)
+        from checks.c03 import _eq_fields
+
+        store = c04e.check_pair_loop(chk, fi, loop, sites, c, fold, make_label_of(repo), _eq_fields)
+    except (c03e.NotReadable, c03e.SX.TooManyPaths) as ex:
+        chk.ok("reading", fi.where, f"find_stackings: fact-level reading not possible ({str(ex)[:120]}); pinned-form rules used")
+        saved = set(chk.robust)
+        chk.robust -= {"stack-roles", "stack-skips", "stack-extra-filter", "stack-offset-vector", "stack-direction", "centroid-register", "model-filter"}
+        try:
+            _pair_loop_pinned(chk, fi, fm, inl, fold, loop, c)
+        finally:
+            chk.robust |= saved
     # ---- emission -----------------------------------------------------------------------------------
     from checks.c03 import find_emission
 
-    ems = find_emission(fi, "pairs")
+    ems = find_emission(fi, store)
     if len(ems) != 1 or not (isinstance(ems[0][1], ast.Tuple) and len(ems[0][1].elts) == 3 and all(isinstance(e, ast.Name) for e in ems[0][1].elts)):
         chk.error("stack-emission", fi.where, "place where the recorded triples become Stacking objects not found")
     else:
         it, tgt, rec, site = ems[0]
         a, b, t = (e.id for e in tgt.elts)
-        if norm(it) == "sorted(pairs)":
+        if norm(it) == f"sorted({store})":
             chk.ok("stack-emission", fi.site(site), "stackings are emitted in sorted order, one per recorded triple")
-        elif norm(it) in ("pairs", "set(pairs)", "reversed(pairs)", "list(pairs)"):
-            chk.violation("stack-emission", fi.site(site), f"stackings are emitted by iterating `{norm(it)}`, not sorted(pairs): the output order follows the KD-tree / set order", K(fi, "emission"), found=norm(it))
+        elif norm(it) in (store, f"set({store})", f"reversed({store})", f"list({store})"):
+            chk.violation("stack-emission", fi.site(site), f"stackings are emitted by iterating `{norm(it)}`, not sorted({store}): the output order follows the KD-tree / set order", K(fi, "emission"), found=norm(it))
         else:
             chk.error("stack-emission", fi.site(site), f"emission source `{norm(it)}` not recognised")
         want = f"Stacking(Residue({a}.label, {a}.auth), Residue({b}.label, {b}.auth), StackingTopology[{t}])"
